@@ -30,9 +30,19 @@ class Engine:
         self.decisions = []
         self.pos = 0
         self.pc = []
+        self.known = {}
         self.max_decisions = max_decisions
 
     def fork(self, cond):
+        # the same question asked again on this path gets the same answer (no new decision)
+        key = cond.sexpr()
+        if key in self.known:
+            return self.known[key]
+        d = self._fork(cond)
+        self.known[key] = d
+        return d
+
+    def _fork(self, cond):
         if self.pos < len(self.decisions):
             d = self.decisions[self.pos]
         else:
@@ -55,6 +65,7 @@ class Engine:
     def reset(self):
         self.pos = 0
         self.pc = []
+        self.known = {}
 
 
 E = None
@@ -85,11 +96,23 @@ def _cmp(op):
     return f
 
 
-class SymFP:
-    """a Python float"""
+def _conv(s, rm, what):
+    """float -> int conversions raise for non-finite values, exactly like CPython"""
+    if SymBool(z3.fpIsInf(s.t)):
+        raise OverflowError("cannot convert float infinity to integer")
+    if SymBool(z3.fpIsNaN(s.t)):
+        raise ValueError("cannot convert float NaN to integer")
+    return SymInt(z3.fpRoundToIntegral(rm, s.t))
 
-    def __init__(self, t):
-        self.t = t
+
+class SymFP(float):
+    """a Python float (subclass, so that isinstance(x, float) holds in the code under execution)"""
+
+    def __new__(cls, t, grid=None):
+        o = float.__new__(cls, 0.0)
+        o.t = t
+        o.grid = grid          # p when the value is a quotient k / 10**p of an integer k (for the rounding lemma)
+        return o
 
     def __mul__(s, o):
         return SymFP(z3.fpMul(RNE, s.t, term(o)))
@@ -102,8 +125,19 @@ class SymFP:
     def __add__(s, o):
         return SymFP(z3.fpAdd(RNE, s.t, term(o)))
 
+    __radd__ = __add__
+
     def __sub__(s, o):
         return SymFP(z3.fpSub(RNE, s.t, term(o)))
+
+    def __rsub__(s, o):
+        return SymFP(z3.fpSub(RNE, term(o), s.t))
+
+    def __neg__(s):
+        return SymFP(z3.fpNeg(s.t))
+
+    def __abs__(s):
+        return SymFP(z3.fpAbs(s.t))
 
     __lt__ = _cmp(z3.fpLT)
     __le__ = _cmp(z3.fpLEQ)
@@ -118,22 +152,34 @@ class SymFP:
 
     __hash__ = None
 
+    def __bool__(s):
+        return bool(SymBool(z3.Not(z3.fpIsZero(s.t))))
+
     def __int__(s):
-        return SymInt(z3.fpRoundToIntegral(z3.RTZ(), s.t))
+        return _conv(s, z3.RTZ(), "int")
 
     __trunc__ = __int__
 
     def __ceil__(s):
-        return SymInt(z3.fpRoundToIntegral(z3.RTP(), s.t))
+        return _conv(s, z3.RTP(), "ceil")
 
     def __floor__(s):
-        return SymInt(z3.fpRoundToIntegral(z3.RTN(), s.t))
+        return _conv(s, z3.RTN(), "floor")
 
     def __round__(s, nd=None):
         if nd is None:
-            return SymInt(z3.fpRoundToIntegral(z3.RNE(), s.t))
-        E.round_lemma_uses += 1
-        return s    # lemma: round(k / 10**p, p) == k / 10**p  (validated by the differential pass)
+            return _conv(s, z3.RNE(), "round")
+        if s.grid == nd:
+            E.round_lemma_uses += 1
+            return s    # lemma: round(k / 10**p, p) == k / 10**p  (validated by the differential pass)
+        # round(x, p) for a value that is NOT a grid quotient: modelled as nearest multiple of 10**-p computed in the
+        # format (differs from CPython's decimal-exact rounding only at representation boundaries; replay decides)
+        E.round_model_uses += 1
+        sc = z3.FPVal(float(10 ** nd), E.F)
+        return SymFP(z3.fpDiv(RNE, z3.fpRoundToIntegral(z3.RNE(), z3.fpMul(RNE, s.t, sc)), sc))
+
+    def __repr__(s):
+        return "<symfp>"
 
 
 class SymInt(int):
@@ -145,13 +191,29 @@ class SymInt(int):
         return o
 
     def __truediv__(s, o):
-        return SymFP(z3.fpDiv(RNE, s.t, term(o)))
+        g = None
+        if isinstance(o, int) and not isinstance(o, SymInt) and o > 0 and str(o).strip("0") == "1":
+            g = len(str(o)) - 1
+        return SymFP(z3.fpDiv(RNE, s.t, term(o)), grid=g)
 
     def __add__(s, o):
         return SymInt(z3.fpAdd(RNE, s.t, term(o)))
 
     def __sub__(s, o):
         return SymInt(z3.fpSub(RNE, s.t, term(o)))
+
+    def __rsub__(s, o):
+        return SymInt(z3.fpSub(RNE, term(o), s.t))
+
+    def __mul__(s, o):
+        if isinstance(o, float) and not isinstance(o, SymFP):
+            return SymFP(z3.fpMul(RNE, s.t, term(o)))
+        return SymInt(z3.fpMul(RNE, s.t, term(o)))
+
+    __rmul__ = __mul__
+
+    def __abs__(s):
+        return SymInt(z3.fpAbs(s.t))
 
     __lt__ = _cmp(z3.fpLT)
     __le__ = _cmp(z3.fpLEQ)
@@ -161,7 +223,13 @@ class SymInt(int):
     def __eq__(s, o):
         return SymBool(z3.fpEQ(s.t, term(o)))
 
+    def __ne__(s, o):
+        return SymBool(z3.Not(z3.fpEQ(s.t, term(o))))
+
     __hash__ = None
+
+    def __repr__(s):
+        return "<symint>"
 
 
 class StubRandom:
@@ -243,6 +311,7 @@ def explore_random_float(precision, eb, sb, z3_timeout=60, cvc5_timeout=0, bound
     real_random, had_int, had_round = mod.random, mod.__dict__.get("int"), mod.__dict__.get("round")
     E = Engine(eb, sb)
     E.round_lemma_uses = 0
+    E.round_model_uses = 0
     scale = 10 ** precision
     if float(scale) != scale or math.frexp(float(scale))[0] * (1 << sb) % 1 != 0:
         pass
@@ -355,3 +424,341 @@ def lemma_check(precision, n=2000, seed=0):
         if round(x, precision) != x:
             bad.append(k)
     return bad
+
+
+# ----------------------------------------------------------------------------------------------------------------
+# Validator.visit_float / Substitutor.visit_float on symbolic doubles (C02, C03, C08, C04, C05, C12 for floats)
+
+def _isclose_py(a, b, *, rel_tol=1e-09, abs_tol=0.0):
+    """math.isclose as documented / as implemented in CPython, on overloaded operands"""
+    if a == b:
+        return True
+    if a == float("inf") or a == float("-inf") or b == float("inf") or b == float("-inf"):
+        return False
+    diff = abs(b - a)
+    return ((diff <= abs(rel_tol * b)) or (diff <= abs(rel_tol * a))) or (diff <= abs_tol)
+
+
+def _isfinite_py(x):
+    return bool(x == x) and bool(x != float("inf")) and bool(x != float("-inf"))
+
+
+def t_isclose(a, b, F):
+    """z3 term: math.isclose(a, b) with the default tolerances (independent statement for the oracle)"""
+    inf = z3.fpPlusInfinity(F)
+    ninf = z3.fpMinusInfinity(F)
+    rel = z3.FPVal(1e-09, F)
+    diff = z3.fpAbs(z3.fpSub(RNE, b, a))
+    return z3.Or(z3.fpEQ(a, b),
+                 z3.And(z3.Not(z3.fpEQ(a, inf)), z3.Not(z3.fpEQ(a, ninf)), z3.Not(z3.fpEQ(b, inf)), z3.Not(z3.fpEQ(b, ninf)),
+                        z3.Or(z3.fpLEQ(diff, z3.fpAbs(z3.fpMul(RNE, rel, b))), z3.fpLEQ(diff, z3.fpAbs(z3.fpMul(RNE, rel, a))))))
+
+
+def t_finite(a):
+    return z3.And(z3.Not(z3.fpIsNaN(a)), z3.Not(z3.fpIsInf(a)))
+
+
+def t_accepts(cfg, x, mn, mx, v, F):
+    """z3 term: 'v conforms to schema.float[(x)][.min(mn)][.max(mx)][.precision(p)]' in the words of C02: equals the
+    fixed value within the documented tolerance (isclose; with a precision: equal after scaling by 10**p and rounding
+    to an integer, exact comparison when scaling is not finite), and no bound is violated."""
+    has_value, has_min, has_max, p = cfg
+    conj = []
+    if has_value:
+        if p is None:
+            conj.append(t_isclose(v, x, F))
+        else:
+            sc = z3.FPVal(float(10 ** p), F)
+            a, e = z3.fpMul(RNE, v, sc), z3.fpMul(RNE, x, sc)
+            conj.append(z3.If(z3.And(t_finite(a), t_finite(e)),
+                              z3.fpEQ(z3.fpRoundToIntegral(z3.RNE(), a), z3.fpRoundToIntegral(z3.RNE(), e)),
+                              z3.fpEQ(v, x)))
+    if has_min:
+        conj.append(z3.Not(z3.fpLT(v, mn)))
+    if has_max:
+        conj.append(z3.Not(z3.fpGT(v, mx)))
+    return z3.And(*conj) if conj else z3.BoolVal(True)
+
+
+class _FloatMeta(type):
+    def __instancecheck__(cls, inst):
+        return isinstance(inst, float)
+
+    def __call__(cls, x=0.0):
+        return x if isinstance(x, SymFP) else (SymFP(x.t) if isinstance(x, SymInt) else float(x))
+
+
+class FloatShim(metaclass=_FloatMeta):
+    """stands for the name `float` in the module under execution: isinstance still works, float(x) keeps symbols"""
+
+
+def int_shim(x, *a):
+    return x.__int__() if isinstance(x, SymFP) else (x if isinstance(x, SymInt) else int(x, *a))
+
+
+class _Shims:
+    """bind isclose / isfinite / int / float in d42.validation._validator to overloadable Python versions for the run
+    (CPython would copy an int/float subclass returned by __int__/__float__ into an exact object, losing the term)"""
+
+    def __enter__(self):
+        import d42.validation  # noqa: F401
+        import d42.substitution  # noqa: F401
+        self.mod = sys.modules["d42.validation._validator"]
+        self.mods = [self.mod, sys.modules["d42.substitution._substitutor"]]
+        self.saved = []
+        for m in self.mods:
+            self.saved.append({k: m.__dict__.get(k, _ABSENT) for k in ("isclose", "isfinite", "int", "float")})
+            if "isclose" in m.__dict__:
+                m.isclose = _isclose_py
+            if "isfinite" in m.__dict__:
+                m.isfinite = _isfinite_py
+            m.int = int_shim
+            m.float = FloatShim
+        return self
+
+    def __exit__(self, *exc):
+        for m, saved in zip(self.mods, self.saved):
+            for k, v in saved.items():
+                if v is _ABSENT:
+                    m.__dict__.pop(k, None)
+                else:
+                    m.__dict__[k] = v
+        return False
+
+
+_ABSENT = object()
+
+
+def dsl_assumptions(cfg, x, mn, mx):
+    """what the DSL itself guarantees about declared parameters (it rejects min > value and max < value), no NaN"""
+    has_value, has_min, has_max, p = cfg
+    out = [z3.Not(z3.fpIsNaN(x)), z3.Not(z3.fpIsNaN(mn)), z3.Not(z3.fpIsNaN(mx))]
+    if has_value and has_min:
+        out.append(z3.Not(z3.fpGT(mn, x)))
+    if has_value and has_max:
+        out.append(z3.Not(z3.fpLT(mx, x)))
+    return out
+
+
+def _mk_float_schema(cfg, x, mn, mx):
+    from d42.declaration.types import FloatSchema
+    from d42.declaration.types._float_schema import FloatProps
+    has_value, has_min, has_max, p = cfg
+    reg = {}
+    if has_value:
+        reg["value"] = SymFP(x)
+    if has_min:
+        reg["min"] = SymFP(mn)
+    if has_max:
+        reg["max"] = SymFP(mx)
+    if p is not None:
+        reg["precision"] = p
+    return FloatSchema(FloatProps(reg))
+
+
+def _solve(extra, timeout):
+    s = z3.SolverFor("QF_FP")
+    s.set("timeout", int(timeout * 1000))
+    s.add(*extra)
+    t0 = time.time()
+    verdict = str(s.check())
+    model = None
+    if verdict == "sat":
+        m = s.model()
+        model = {str(d): fp_to_py(m[d], E.eb, E.sb) for d in m.decls()}
+    return verdict, model, round(time.time() - t0, 2)
+
+
+def explore_visit_float(cfg, eb=11, sb=53, z3_timeout=60):
+    """Run the real Validator.visit_float on a symbolic double against a float schema whose declared parameters are
+    symbolic doubles (cfg = (has_value, has_min, has_max, precision or None)).  Per path:
+      * an exception on a feasible path violates C08 (totality);
+      * verdict != t_accepts(...) violates C02;
+      * every reported error must be true of the value (C03): Value error => not value-equal, Min => v < min, Max => v > max.
+    NaN declared parameters are excluded (the DSL accepts them; known finding F13)."""
+    global E
+    from d42.validation import Validator
+    from d42.validation import errors as VE
+    E = Engine(eb, sb)
+    E.round_lemma_uses = E.round_model_uses = 0
+    F = E.F
+    records = []
+    with _Shims():
+        while True:
+            E.reset()
+            x, mn, mx, v = z3.FP("x", F), z3.FP("mn", F), z3.FP("mx", F), z3.FP("v", F)
+            assume = dsl_assumptions(cfg, x, mn, mx)
+            S = _mk_float_schema(cfg, x, mn, mx)
+            want = t_accepts(cfg, x, mn, mx, v, F)
+            checks = []
+            try:
+                res = Validator().visit_float(S, value=SymFP(v))
+                errs = res.get_errors()
+                outcome = "accept" if not errs else "reject:" + ",".join(type(e).__name__.replace("ValidationError", "") for e in errs)
+                checks.append(("verdict", z3.Not(want) if not errs else want))
+                for e in errs:
+                    if isinstance(e, VE.ValueValidationError):
+                        checks.append(("value-error-true", t_accepts((True, False, False, cfg[3]), x, mn, mx, v, F)))
+                    elif isinstance(e, VE.MinValueValidationError):
+                        checks.append(("min-error-true", z3.Not(z3.fpLT(v, mn))))
+                    elif isinstance(e, VE.MaxValueValidationError):
+                        checks.append(("max-error-true", z3.Not(z3.fpGT(v, mx))))
+                    else:
+                        checks.append(("unexpected-error-kind", z3.BoolVal(True)))
+            except UnwindingFailure:
+                raise
+            except Exception as ex:
+                outcome = "raise %s" % type(ex).__name__
+                checks.append(("no-exception", z3.BoolVal(True)))
+            for name, bad in checks:
+                verdict, model, dt = _solve(assume + E.pc + [bad], z3_timeout)
+                records.append({"cfg": list(cfg), "decisions": list(E.decisions[:E.pos]), "outcome": outcome, "check": name,
+                                "verdict": verdict, "model": model, "solver_s": dt})
+            if not E.next_path():
+                break
+    return records
+
+
+def replay_visit_float(cfg, model):
+    """plain-CPython replay of a visit_float counterexample: returns (ok, detail)"""
+    import math as _m
+    from d42 import schema, validate
+    has_value, has_min, has_max, p = cfg
+    g = lambda k: model.get(k) if model.get(k) is not None else 0.0   # noqa: E731
+    x, mn, mx, v = g("x"), g("mn"), g("mx"), g("v")
+    s = schema.float
+    try:
+        if has_value:
+            s = s(x)
+        if has_min:
+            s = s.min(mn)
+        if has_max:
+            s = s.max(mx)
+        if p is not None:
+            s = s.precision(p)
+    except Exception as ex:
+        return True, "declaration rejected the model's parameters (%s): not a counterexample" % type(ex).__name__
+    try:
+        res = validate(s, v)
+    except Exception as ex:
+        return False, "validate(%r, %r) raised %s: %s" % (s, v, type(ex).__name__, ex)
+    acc = not res.has_errors()
+    want = True
+    if has_value:
+        if p is None:
+            want = _m.isclose(v, x)
+        else:
+            a, e = v * 10 ** p, x * 10 ** p
+            want = (round(a) == round(e)) if (_m.isfinite(a) and _m.isfinite(e)) else (v == x)
+    if has_min and v < mn:
+        want = False
+    if has_max and v > mx:
+        want = False
+    return acc == want, "validate(%r, %r): accepted=%s, semantics say %s" % (s, v, acc, want)
+
+
+def explore_substitute_float(cfg, eb=11, sb=53, z3_timeout=60, mode="usable"):
+    """Run the real Substitutor.visit_float: R = S % v for symbolic doubles, then the real validator on R.
+      C12: only SubstitutionError may escape; R must accept v (what it generates) and R % v must succeed again;
+      C04: v conforms to S  =>  R accepts v;   C05: R accepts w => S accepts w  (w a second symbolic double)."""
+    global E
+    from d42.substitution import Substitutor
+    from d42.substitution.errors import SubstitutionError
+    from d42.validation import Validator
+    E = Engine(eb, sb)
+    E.round_lemma_uses = E.round_model_uses = 0
+    F = E.F
+    records = []
+    with _Shims():
+        while True:
+            E.reset()
+            x, mn, mx, v, w = z3.FP("x", F), z3.FP("mn", F), z3.FP("mx", F), z3.FP("v", F), z3.FP("w", F)
+            assume = dsl_assumptions(cfg, x, mn, mx) + [z3.Not(z3.fpIsNaN(v))]
+            S = _mk_float_schema(cfg, x, mn, mx)
+            checks = []
+            sub = Substitutor()
+            try:
+                try:
+                    R = sub.visit_float(S, value=SymFP(v))
+                except SubstitutionError:
+                    outcome = "raised SubstitutionError"
+                    checks.append(("conforming-value-refused", t_accepts(cfg, x, mn, mx, v, F)))
+                    R = None
+                if R is not None:
+                    outcome = "substituted"
+                    pinned = R.props.value
+                if R is not None and mode == "usable":
+                    accR_v = not Validator().visit_float(R, value=SymFP(v)).get_errors()
+                    if not accR_v:
+                        checks.append(("result-rejects-substituted-value", z3.BoolVal(True)))
+                    if pinned is None or not isinstance(pinned, SymFP):
+                        checks.append(("result-has-no-float-value", z3.BoolVal(True)))
+                    else:
+                        gen_ok = not Validator().visit_float(R, value=pinned).get_errors()
+                        if not gen_ok:
+                            checks.append(("result-rejects-what-it-generates", z3.BoolVal(True)))
+                    try:
+                        sub.visit_float(R, value=SymFP(v))
+                    except SubstitutionError:
+                        checks.append(("not-idempotent", z3.BoolVal(True)))
+                if R is not None and mode == "narrow":
+                    accR_w = not Validator().visit_float(R, value=SymFP(w)).get_errors()
+                    if accR_w:
+                        checks.append(("widened", z3.Not(t_accepts(cfg, x, mn, mx, w, F))))
+                        outcome += ",R accepts w"
+            except UnwindingFailure:
+                raise
+            except Exception as ex:
+                outcome = "raise %s" % type(ex).__name__
+                checks = [("only-SubstitutionError", z3.BoolVal(True))]
+            if not checks:
+                checks.append(("path-feasible", z3.BoolVal(False)))
+            for name, bad in checks:
+                verdict, model, dt = _solve(assume + E.pc + [bad], z3_timeout)
+                records.append({"cfg": list(cfg), "decisions": list(E.decisions[:E.pos]), "outcome": outcome, "check": name,
+                                "verdict": verdict, "model": model, "solver_s": dt})
+            if not E.next_path():
+                break
+    return records
+
+
+def replay_substitute_float(cfg, model, check):
+    import math as _m
+    from d42 import schema, substitute, validate
+    from d42.substitution.errors import SubstitutionError
+    has_value, has_min, has_max, p = cfg
+    g = lambda k: model.get(k) if model.get(k) is not None else 0.0   # noqa: E731
+    x, mn, mx, v, w = g("x"), g("mn"), g("mx"), g("v"), g("w")
+    s = schema.float
+    try:
+        if has_value:
+            s = s(x)
+        if has_min:
+            s = s.min(mn)
+        if has_max:
+            s = s.max(mx)
+        if p is not None:
+            s = s.precision(p)
+    except Exception as ex:
+        return True, "declaration rejected the model's parameters (%s)" % type(ex).__name__
+    try:
+        try:
+            r = substitute(s, v)
+        except SubstitutionError:
+            ok = validate(s, v).has_errors()
+            return ok, "substitute(%r, %r) raised SubstitutionError; value conforms to S: %s" % (s, v, not ok)
+        if validate(r, v).has_errors():
+            return False, "%r %% %r = %r rejects %r" % (s, v, r, v)
+        if validate(r, r.props.value).has_errors():
+            return False, "%r rejects its own fixed value" % (r,)
+        try:
+            substitute(r, v)
+        except SubstitutionError:
+            return False, "(%r %% %r) %% %r raised SubstitutionError" % (s, v, v)
+        if not validate(r, w).has_errors() and validate(s, w).has_errors():
+            return False, "%r %% %r = %r accepts %r which %r rejects" % (s, v, r, w, s)
+    except SubstitutionError:
+        raise
+    except Exception as ex:
+        return False, "raised %s: %s" % (type(ex).__name__, ex)
+    return True, "no violation on the real code for x=%r mn=%r mx=%r v=%r w=%r" % (x, mn, mx, v, w)
